@@ -134,6 +134,8 @@ type agg struct {
 	infra      []string
 	perProfile map[string]int
 	schedHash  map[uint64]bool
+	states     map[uint64]bool
+	trans      map[uint64]bool
 	firstSeed  uint64
 	lastSeed   uint64
 	cut        bool
@@ -149,7 +151,7 @@ func Check(cfg CheckConfig) int {
 	}
 	fmt.Printf("verifsim check property=%s tier=%s VERIF_SEED=%d procs=%d budget=%v\n", cfg.Prop, cfg.Tier, cfg.Base, cfg.Procs, cfg.Budget)
 	jobs := Jobs(cfg.Prop, cfg.Tier, cfg.Scale)
-	a := &agg{classes: map[string]int{}, nontriv: map[string]bool{}, stats: map[string]int{}, known: map[string]int{}, knownEx: map[string]string{}, perProfile: map[string]int{}, schedHash: map[uint64]bool{}}
+	a := &agg{classes: map[string]int{}, nontriv: map[string]bool{}, stats: map[string]int{}, known: map[string]int{}, knownEx: map[string]string{}, perProfile: map[string]int{}, schedHash: map[uint64]bool{}, states: map[uint64]bool{}, trans: map[uint64]bool{}}
 	deadline := start.Add(cfg.Budget)
 	stop := make(chan struct{})
 	var stopOnce sync.Once
@@ -362,6 +364,12 @@ func (a *agg) add(res Result, jobs []Job) {
 	}
 	if res.Sched != 0 && res.Stats["sched:releases"] > 0 {
 		a.schedHash[res.Sched] = true
+	}
+	for _, x := range res.States {
+		a.states[x] = true
+	}
+	for _, x := range res.Trans {
+		a.trans[x] = true
 	}
 	for id, n := range res.Known {
 		a.known[id] += n
